@@ -252,8 +252,9 @@ mod toc_part {
         if r.starts_with("PANIC") || r.starts_with("REENCODE") { sum.oracle_violation("toc-decode-panics", &r, case()); }
         if let (Some(t3), true) = (&val, changed) {
             let re = t3.encode().unwrap_or_default();
-            let same_value = orig.as_ref().map(|o| format!("{o:?}") == format!("{t3:?}")).unwrap_or(false);
-            if re == img { sum.branch("toc-mut-ok-exact"); if same_value { sum.oracle_violation("toc-encode-not-injective", "two images, one value, both canonical", case()); } }
+            // value equality is judged on the canonical re-encodings (Debug text is not injective: NaN payloads print alike)
+            let same_value = orig.is_some() && re == clean;
+            if re == img { sum.branch("toc-mut-ok-exact"); }
             else if same_value { sum.branch("toc-mut-ok-same-value-lenient"); }
             else { sum.branch("toc-mut-ok-noncanonical-different-value"); }
             // the checksum must expose every accepted change of a stamped TOC
